@@ -70,14 +70,14 @@ type AuthzWorld struct {
 	paths []*ibctesting.Path
 	get   accountGetter
 
-	chanID  map[string]string // c0 -> channel-0
-	chanAbs map[string]string
-	denom   map[string]string // x -> ibc/...
+	chanID   map[string]string // c0 -> channel-0
+	chanAbs  map[string]string
+	denom    map[string]string // x -> ibc/...
 	denomAbs map[string]string
-	rcv     map[string]string
-	rcvAbs  map[string]string
-	memo    map[string]string
-	memoAbs map[string]string
+	rcv      map[string]string
+	rcvAbs   map[string]string
+	memo     map[string]string
+	memoAbs  map[string]string
 
 	grantee Acct
 	granter Acct
@@ -94,7 +94,9 @@ func NewAuthzWorld(t *testing.T) *AuthzWorld {
 	w.coord = ibctesting.NewCoordinator(t, 2)
 	w.A = w.coord.GetChain(ibctesting.GetChainID(1))
 	w.B = w.coord.GetChain(ibctesting.GetChainID(2))
-	w.get = func(ctx sdk.Context, addr sdk.AccAddress) sdk.AccountI { return w.A.GetSimApp().AccountKeeper.GetAccount(ctx, addr) }
+	w.get = func(ctx sdk.Context, addr sdk.AccAddress) sdk.AccountI {
+		return w.A.GetSimApp().AccountKeeper.GetAccount(ctx, addr)
+	}
 	for i, c := range azChans {
 		p := ibctesting.NewTransferPath(w.A, w.B)
 		p.Setup()
